@@ -213,9 +213,12 @@ func (s *projState) killedRun(res *Result, sched Sched, op CHOp, f Faults, label
 	return obs
 }
 
-func (crashScen) Exec(w *World, cc any, prop string) *Result {
+func (cs crashScen) Exec(w *World, cc any, prop string) *Result {
 	c := cc.(*CrashCase)
 	res := newResult()
+	if w.Level == "L3" {
+		return cs.execProc(w, c, res)
+	}
 	s := newProjState(w, &c.Prog, c.Disk)
 	s.logDelta()
 	for oi, op := range c.Prefix {
@@ -492,4 +495,110 @@ func countDropped(prefix []CHOp, name string) int {
 		}
 	}
 	return n
+}
+
+// ---------------------------------------------------------------- level L3: real SIGKILL
+
+// execProc is the process-level twin of Exec: the killed invocation is the real
+// binary, the kill is a real SIGKILL that the control script of one command
+// sends to spok itself (`kill -9 $$`, once per command position of the run), and
+// a torn cache write is emulated between invocations by truncating cache.json to
+// a byte prefix (the same durable state a kill inside the write leaves). The
+// continuations and the oracle are those of level L2.
+func (crashScen) execProc(w *World, c *CrashCase, res *Result) *Result {
+	s := newProjState(w, &c.Prog, c.Disk)
+	s.logDelta()
+	for oi, op := range c.Prefix {
+		res.Ops++
+		if op.Op == "run" {
+			if stop := s.judgeRun(res, c.Sched, false, fmt.Sprintf("pre%d", oi), op, "C10", "prefix"); stop {
+				return res
+			}
+			continue
+		}
+		s.applyOp(res, fmt.Sprintf("pre%d", oi), op)
+	}
+	if len(res.Violations) > 0 {
+		res.Abandoned = "C01: the crash-free prefix already shows a wrong skip: " + res.Violations[0].Message
+		res.Violations = nil
+		return res
+	}
+	closure, ok := s.prog.Closure(c.Run.Tasks)
+	if !ok || len(c.Run.Tasks) == 0 {
+		return res
+	}
+	snap := s.snapshot()
+	type variant struct {
+		task  string
+		cmd   int
+		keep  int // >= 0: afterwards truncate cache.json to this many bytes
+		label string
+	}
+	var variants []variant
+	kr := NewRng(c.KSeed, "prockill", 0)
+	for _, n := range closure {
+		for i := 0; i < s.prog.Task(n).NCmd; i++ {
+			variants = append(variants, variant{n, i, -1, fmt.Sprintf("kill@%s#%d", n, i)})
+		}
+	}
+	for i := 0; i < 3; i++ {
+		variants = append(variants, variant{"", 0, kr.Intn(120), "tearfile"})
+	}
+	cachePath := filepath.Join(w.Proj, ".spok", "cache.json")
+	for _, vr := range variants {
+		s.restore(snap)
+		if vr.task != "" {
+			key := fmt.Sprintf("%s_%d", vr.task, vr.cmd)
+			s.ctl[key] = 137
+			writeFile(filepath.Join(w.Ctl, key), "kill -9 $$\n")
+		}
+		obs := s.killedRun(res, c.Sched, c.Run, NoFaults(), vr.label)
+		res.Ops++
+		if vr.task != "" {
+			s.setCtl(vr.task, vr.cmd, 0) // the kill was an event, not a property of the command
+			if obs.Crashed == "SIGKILL" {
+				res.count("fault_fired:real_SIGKILL")
+			} else {
+				res.count("kill_not_reached_task_was_skipped")
+			}
+		}
+		if obs.Out.Panic != "" {
+			res.Abandoned = "C18: the process died on its own: " + short(obs.Out.Panic, 200)
+			return res
+		}
+		class := "kill"
+		if vr.keep >= 0 {
+			class = "tear"
+			if b, err := os.ReadFile(cachePath); err == nil && len(b) > 0 {
+				k := vr.keep % len(b)
+				must(os.WriteFile(cachePath, b[:k], 0o644))
+				res.count("fault_fired:cache_file_truncated")
+			}
+		}
+		after := s.snapshot()
+		for ci, cont := range c.Conts {
+			if ci > 0 {
+				s.restore(after)
+			}
+			sig := fmt.Sprintf("L3:%s;%s", class, contShape(cont))
+			before := len(res.Violations)
+			for oi, op := range cont {
+				res.Ops++
+				label := fmt.Sprintf("%s/cont%d.%d", vr.label, ci, oi)
+				if op.Op == "run" {
+					if stop := s.judgeRun(res, c.Sched, false, label, op, "C10", sig); stop {
+						return res
+					}
+					continue
+				}
+				s.applyOp(res, label, op)
+			}
+			res.distinct(fmt.Sprintf("L3|%s|%s|crashed%v|viol%v", class, contShape(cont), obs.Crashed != "", len(res.Violations) > before))
+			if len(res.Violations) > before {
+				res.Violations[before].Message = fmt.Sprintf("[level L3, %s, continuation %d] %s", vr.label, ci, res.Violations[before].Message)
+				return res
+			}
+		}
+	}
+	return res
 }
